@@ -52,6 +52,7 @@ var wanted = map[string][]string{
 		"dtlcpWriteHeader", "dtlcpIsCompleteMessage",
 		"certificateMsg.unmarshal", "certificateRequestMsg.unmarshal", "serverKeyExchangeMsg.unmarshal",
 		"clientKeyExchangeMsg.unmarshal", "serverHelloDoneMsg.unmarshal",
+		"clientHelloMsg.marshalForCookie", "generateCookie", "verifyCookie",
 	},
 	"tlcp": {
 		"extractPadding", "roundUp", "requiresClientCert", "supportedVersionsFromMax",
@@ -62,6 +63,20 @@ var wanted = map[string][]string{
 }
 
 var pkgOrder = []string{"tlcp", "dtlcp"}
+
+// externStubs: declarations that stand for the few library calls the subset knows how to model
+// (keyed HMAC as "key + accumulated input", constant-time comparison as equality).  They make the
+// synthetic file type-check without importing crypto packages; the translator recognises the calls
+// by name and gives them their meaning (see `externCall`).
+const externStubs = `
+type goHash interface {
+	Write(p []byte) (int, error)
+	Sum(b []byte) []byte
+}
+var hmac = struct{ New func(h func() goHash, key []byte) goHash }{}
+var sm3 = struct{ New func() goHash }{}
+var subtle = struct{ ConstantTimeCompare func(x, y []byte) int }{}
+`
 
 // loopFuel: bounds (Go expressions over the function's parameters) for loops that are not
 // counting loops, in source order, keyed by "pkg.func".  A bound that is too small makes the
@@ -135,7 +150,7 @@ func synth(d *decls, pkgName string, fns []string) (*token.FileSet, *ast.File, *
 	dropped := map[string]string{}
 	for round := 0; round < 200; round++ {
 		var buf bytes.Buffer
-		fmt.Fprintf(&buf, "package %s\n\nimport \"time\"\n\nvar _ = time.Now\n\n", pkgName)
+		fmt.Fprintf(&buf, "package %s\n\nimport \"time\"\n\nvar _ = time.Now\n\n%s\n", pkgName, externStubs)
 		for _, g := range genOrder {
 			printer.Fprint(&buf, d.fset, g)
 			buf.WriteString("\n\n")
@@ -269,6 +284,7 @@ type fnMeta struct {
 	hasRecv  bool
 	ptrRecv  bool
 	mutParam []string // names of slice parameters written through (returned after the receiver)
+	usesExt  bool     // calls a modelled library function: takes `(ext : Go.Extern)` first
 }
 
 var leanKeywords = map[string]bool{"end": true, "at": true, "from": true, "have": true, "show": true, "with": true,
@@ -281,6 +297,9 @@ var leanKeywords = map[string]bool{"end": true, "at": true, "from": true, "have"
 func (t *tr) leanType(ty types.Type) string {
 	switch u := ty.(type) {
 	case *types.Named:
+		if u.Obj().Name() == "goHash" && u.Obj().Pkg() == t.pkg {
+			return "Go.Hmac"
+		}
 		if _, ok := u.Underlying().(*types.Struct); ok {
 			if u.Obj().Pkg() != t.pkg {
 				bad("type %s belongs to another package", ty)
@@ -304,8 +323,8 @@ func (t *tr) leanType(ty types.Type) string {
 			return "BitVec 16"
 		case types.Uint8, types.Int8:
 			return "BitVec 8"
-		case types.String:
-			return "String"
+		case types.String, types.UntypedString:
+			return "List (BitVec 8)" // a Go string is its bytes
 		}
 	case *types.Slice:
 		return "List (" + t.leanType(u.Elem()) + ")"
@@ -376,7 +395,7 @@ func (t *tr) zero(ty types.Type) string {
 			return "false"
 		}
 		if u.Kind() == types.String {
-			return "\"\""
+			return "[]"
 		}
 	case *types.Slice:
 		return "[]"
@@ -395,6 +414,13 @@ func (t *tr) constLit(v constant.Value, ty types.Type) string {
 			return "true"
 		}
 		return "false"
+	}
+	if b, ok := ty.Underlying().(*types.Basic); ok && b.Info()&types.IsString != 0 {
+		var parts []string
+		for _, c := range []byte(constant.StringVal(v)) {
+			parts = append(parts, fmt.Sprintf("%d#8", c))
+		}
+		return "([" + strings.Join(parts, ", ") + "] : List (BitVec 8))"
 	}
 	w, _, ok := intKind(ty)
 	if !ok {
@@ -771,6 +797,21 @@ func (t *tr) convert(to types.Type, arg ast.Expr) string {
 		if types.Identical(to.Underlying(), from.Underlying()) {
 			return t.expr(arg)
 		}
+		isStr := func(x types.Type) bool {
+			b, ok := x.Underlying().(*types.Basic)
+			return ok && b.Info()&types.IsString != 0
+		}
+		isBytes := func(x types.Type) bool {
+			sl, ok := x.Underlying().(*types.Slice)
+			if !ok {
+				return false
+			}
+			w, sg, ok := intKind(sl.Elem())
+			return ok && w == 8 && !sg
+		}
+		if (isStr(to) && isBytes(from)) || (isBytes(to) && isStr(from)) {
+			return t.expr(arg)
+		}
 		bad("conversion %s -> %s", from, to)
 	}
 	x := t.expr(arg)
@@ -863,6 +904,9 @@ func (t *tr) call(c *ast.CallExpr) string {
 			bad("builtin %s in expression position", id.Name)
 		}
 	}
+	if r, ok := t.externCall(c); ok {
+		return r
+	}
 	// call of another translated function / method
 	var callee *fnMeta
 	var recvArg string
@@ -882,6 +926,10 @@ func (t *tr) call(c *ast.CallExpr) string {
 		bad("call of %s, which writes through a reference argument, in expression position", callee.goName)
 	}
 	s := callee.leanName
+	if callee.usesExt {
+		s += " ext"
+		t.meta.usesExt = true
+	}
 	if recvArg != "" {
 		s += " " + recvArg
 	}
@@ -892,6 +940,43 @@ func (t *tr) call(c *ast.CallExpr) string {
 		return t.act(s)
 	}
 	return "(" + s + ")"
+}
+
+// externCall: the modelled library calls (see externStubs)
+func (t *tr) externCall(c *ast.CallExpr) (string, bool) {
+	sel, ok := c.Fun.(*ast.SelectorExpr)
+	if !ok {
+		return "", false
+	}
+	if id, ok := sel.X.(*ast.Ident); ok {
+		if v, isVar := t.info.Uses[id].(*types.Var); isVar && v.Parent() == t.pkg.Scope() {
+			switch id.Name + "." + sel.Sel.Name {
+			case "hmac.New":
+				if len(c.Args) == 2 && t.src(c.Args[0]) == "sm3.New" {
+					return "({ key := " + t.expr(c.Args[1]) + ", input := [] } : Go.Hmac)", true
+				}
+				bad("hmac.New with a hash other than sm3.New")
+			case "subtle.ConstantTimeCompare":
+				return "(Go.constantTimeCompare " + t.atom(c.Args[0]) + " " + t.atom(c.Args[1]) + ")", true
+			}
+		}
+	}
+	// h.Sum(nil) on a modelled hash
+	if s := t.info.Selections[sel]; s != nil && s.Kind() == types.MethodVal {
+		if n, ok := s.Recv().(*types.Named); ok && n.Obj().Name() == "goHash" {
+			switch sel.Sel.Name {
+			case "Sum":
+				if id, ok := c.Args[0].(*ast.Ident); !ok || id.Name != "nil" {
+					bad("Sum with a non-nil prefix")
+				}
+				t.meta.usesExt = true
+				h := t.atom(sel.X)
+				return "(ext.hmacSM3 " + h + ".key " + h + ".input)", true
+			}
+			bad("method %s of a hash in expression position", sel.Sel.Name)
+		}
+	}
+	return "", false
 }
 
 func (t *tr) composite(c *ast.CompositeLit) string {
@@ -1236,6 +1321,16 @@ func (t *tr) callStmt(o *out, c *ast.CallExpr) {
 			}
 			t.assign(o, c.Args[idx], sx)
 			return
+		}
+	}
+	// h.Write(x) on a modelled hash: the input grows
+	if f, ok := c.Fun.(*ast.SelectorExpr); ok && f.Sel.Name == "Write" {
+		if s := t.info.Selections[f]; s != nil && s.Kind() == types.MethodVal {
+			if n, ok := s.Recv().(*types.Named); ok && n.Obj().Name() == "goHash" {
+				h := t.expr(f.X)
+				t.assign(o, f.X, "{ "+h+" with input := "+h+".input ++ "+t.atom(c.Args[0])+" }")
+				return
+			}
 		}
 	}
 	// method call for its effect on the receiver
@@ -1759,6 +1854,9 @@ func (t *tr) function(m *fnMeta) (text string, err error) {
 		}
 		t.emit(o, "return %s", t.retExpr(vals))
 	}
+	if m.usesExt {
+		params = append([]string{"(ext : Go.Extern)"}, params...)
+	}
 	var b strings.Builder
 	fmt.Fprintf(&b, "/-- translated from `%s` -/\n", m.goName)
 	if m.panics {
@@ -1894,7 +1992,8 @@ func translatePackage(repo, name string, w *strings.Builder, untranslated *[]str
 		t.byObj[m.obj] = m
 		metas = append(metas, m)
 	}
-	// structures used by the functions, in source order
+	// structures used by the functions, each after the structures its fields mention
+	var structs []*types.Named
 	for _, dc := range file.Decls {
 		gd, ok := dc.(*ast.GenDecl)
 		if !ok || gd.Tok != token.TYPE {
@@ -1904,11 +2003,40 @@ func translatePackage(repo, name string, w *strings.Builder, untranslated *[]str
 			ts := sp.(*ast.TypeSpec)
 			if n, ok := info.Defs[ts.Name].Type().(*types.Named); ok {
 				if _, ok := n.Underlying().(*types.Struct); ok {
-					w.WriteString(t.structure(n))
-					w.WriteString("\n")
+					structs = append(structs, n)
 				}
 			}
 		}
+	}
+	emitted := map[*types.Named]bool{}
+	var emitStruct func(n *types.Named, depth int)
+	var mentions func(ty types.Type, f func(*types.Named))
+	mentions = func(ty types.Type, f func(*types.Named)) {
+		switch u := ty.(type) {
+		case *types.Named:
+			if _, ok := u.Underlying().(*types.Struct); ok && u.Obj().Pkg() == tp {
+				f(u)
+			}
+		case *types.Slice:
+			mentions(u.Elem(), f)
+		case *types.Pointer:
+			mentions(u.Elem(), f)
+		}
+	}
+	emitStruct = func(n *types.Named, depth int) {
+		if emitted[n] || depth > 20 {
+			return
+		}
+		emitted[n] = true
+		st := n.Underlying().(*types.Struct)
+		for i := 0; i < st.NumFields(); i++ {
+			mentions(st.Field(i).Type(), func(d *types.Named) { emitStruct(d, depth+1) })
+		}
+		w.WriteString(t.structure(n))
+		w.WriteString("\n")
+	}
+	for _, n := range structs {
+		emitStruct(n, 0)
 	}
 	// package-level slice variables the functions read (assumed never reassigned: checked below)
 	t.pkgVars = map[types.Object]string{}
@@ -1921,7 +2049,7 @@ func translatePackage(repo, name string, w *strings.Builder, untranslated *[]str
 		for _, sp := range gd.Specs {
 			vs := sp.(*ast.ValueSpec)
 			for i, nm := range vs.Names {
-				if nm.Name == "_" || i >= len(vs.Values) {
+				if nm.Name == "_" || i >= len(vs.Values) || nm.Name == "hmac" || nm.Name == "sm3" || nm.Name == "subtle" {
 					continue
 				}
 				obj := info.Defs[nm]
@@ -1947,8 +2075,9 @@ func translatePackage(repo, name string, w *strings.Builder, untranslated *[]str
 		}
 	}
 	for _, m := range metas {
-		// two passes: the first discovers whether the body needs the Except monad
+		// two passes: the first discovers whether the body needs the Except monad / the externs
 		m.panics = false
+		m.usesExt = false
 		if _, err := t.function(m); err != nil {
 			*untranslated = append(*untranslated, name+"."+m.goName)
 			fmt.Fprintf(w, "-- %s not translated: %s\n\n", m.goName, err)
